@@ -660,6 +660,8 @@ loop:
 		case <-sc.maxRequestTimer.C:
 			reqTimerArmed = false
 
+			verifTick(verifTickSrvReqTimer)
+
 			// No read timeout configured means requests do not time out.
 			if sc.maxRequestTime <= 0 {
 				continue
